@@ -81,3 +81,83 @@ Example C05_nonvacuous :
         [VA (AStr [100%N]); VA (AStr [99%N]); VA (AInt 2)]].
 Proof. vm_compute. reflexivity. Qed.
 Print Assumptions C05_nonvacuous.
+
+(* ------------------------------------------------------------------ text level: splitting the assignment list *)
+From RBQL Require Import Parser Parser_Update_Proofs.
+From Coq Require String.
+Import String.StringSyntax.
+
+(* for an assignment list rendered from (target, right-hand side) pairs — any numbers of blanks before each target,
+   before "=", after "=" and after each right-hand side — the splitter (update_assignments, the model of the
+   assignment-looking regex of translate_update_expression) returns exactly the pairs.  asg_ok: the list is non-empty;
+   every target is "a" followed by characters of [.#a-zA-Z0-9\[\]_]; every right-hand side is non-empty, is its own
+   strip (of the flavour), does not start with "=", and no "," in it is followed by text that looks like an
+   assignment when a "," is put after the right-hand side (rhs_ok_spec, quiet_in_spec spell the booleans out) *)
+Theorem C05_assignment_split : forall fl sp ps,
+  asg_ok fl ps = true -> update_assignments fl (render_asg sp ps) = Ok ps.
+Proof. exact update_split. Qed.
+Print Assumptions C05_assignment_split.
+
+(* the same with the look-ahead condition made exact: the right-hand side may start with "=" when a blank follows
+   the assignment's "=" *)
+Theorem C05_assignment_split_sp : forall fl sp ps,
+  asg_ok_sp fl sp ps = true -> update_assignments fl (render_asg sp ps) = Ok ps.
+Proof. exact update_split_sp. Qed.
+Print Assumptions C05_assignment_split_sp.
+
+(* quietness is checked against one following comma; that covers both real continuations *)
+Theorem C05_quiet_continuations : forall suf, assign_at (suf ++ [COMMA]) = None ->
+  (forall k, assign_at (suf ++ COMMA :: k) = None) /\ assign_at suf = None.
+Proof. exact assign_at_comma_ext. Qed.
+Print Assumptions C05_quiet_continuations.
+
+(* the swap (by the theorem), in three spacings *)
+Example C05_split_swap : forall fl,
+  update_assignments fl $"a1 = a2, a2 = a1" = Ok swap_pairs
+  /\ update_assignments fl $"a1=a2,a2=a1" = Ok swap_pairs
+  /\ update_assignments fl $"  a1  =  a2  ,  a2  =  a1  " = Ok swap_pairs.
+Proof. exact update_split_swap. Qed.
+Print Assumptions C05_split_swap.
+
+(* each hypothesis is needed *)
+Example C05_split_need_quiet : forall fl,
+  let ps := [($"a1", $"f(a2, a3 = 1)")] in
+  rhs_quiet $"f(a2, a3 = 1)" = false
+  /\ update_assignments fl (render_asg sp_common ps) = Ok [($"a1", $"f(a2"); ($"a3", $"1)")].
+Proof. exact need_quiet. Qed.
+Print Assumptions C05_split_need_quiet.
+
+Example C05_split_need_look : forall fl,
+  let ps := [($"a1", $"= a2")] in
+  look_ok (mkSp 0 1 0 0) $"= a2" = false
+  /\ render_asg (fun _ => mkSp 0 1 0 0) ps = $"a1 == a2"
+  /\ update_assignments fl $"a1 == a2" = Err E_update_first_assignment
+  /\ asg_ok_sp fl sp_common ps = true
+  /\ update_assignments fl $"a1 = = a2" = Ok ps.
+Proof. exact need_look. Qed.
+Print Assumptions C05_split_need_look.
+
+Example C05_split_need_nonempty_rhs : forall fl,
+  update_assignments fl (render_asg sp_tight [($"a1", [])]) = Err E_update_first_assignment.
+Proof. exact need_nonempty_rhs. Qed.
+Print Assumptions C05_split_need_nonempty_rhs.
+
+Example C05_split_need_stripped : forall fl,
+  update_assignments fl (render_asg sp_tight [($"a1", $" a2 ")]) = Ok [($"a1", $"a2")].
+Proof. exact need_stripped. Qed.
+Print Assumptions C05_split_need_stripped.
+
+Example C05_split_need_target : forall fl,
+  update_assignments fl (render_asg sp_common [($"b1", $"2")]) = Err E_update_first_assignment
+  /\ update_assignments fl (render_asg sp_common [($"a1+", $"2")]) = Err E_update_first_assignment
+  /\ update_assignments fl (render_asg sp_common [($"a1", $"2"); ($"b2", $"3")]) = Ok [($"a1", $"2, b2 = 3")]
+  /\ update_assignments fl (render_asg sp_common []) = Err E_update_first_assignment.
+Proof. exact need_target. Qed.
+Print Assumptions C05_split_need_target.
+
+(* the condition is sufficient, not necessary *)
+Example C05_split_quiet_not_necessary : forall fl,
+  rhs_quiet $"x,a2 =" = false
+  /\ update_assignments fl (render_asg sp_common [($"a1", $"x,a2 =")]) = Ok [($"a1", $"x,a2 =")].
+Proof. exact quiet_not_necessary. Qed.
+Print Assumptions C05_split_quiet_not_necessary.
